@@ -10,6 +10,7 @@ import sys
 import typing
 
 sys.path.insert(0, os.path.dirname(os.path.abspath(__file__)))
+sys.path.insert(0, os.path.dirname(os.path.dirname(os.path.abspath(__file__))))
 from oracle_common import M, py_of, Unmappable  # noqa: E402
 import attrs  # noqa: E402
 from lsprotocol import types  # noqa: E402
@@ -56,10 +57,8 @@ def main():
         for r in lst:
             m = r["method"]
             methods.add(m)
-            tn = r.get("typeName")
-            if not tn:
-                add(m, "typeName", "present", "absent")
-                continue
+            import valuegen
+            tn = valuegen.Meta.class_base_name(r)
             cn = suffixed(tn, "Request" if kind == "request" else "Notification")
             cls = getattr(types, cn, None)
             entry = types.METHOD_TO_TYPES.get(m)
